@@ -11,6 +11,7 @@ import subprocess
 import sys
 import time
 
+WT = None
 ENV = dict(os.environ, GOFLAGS='-mod=mod', GOPROXY='off', GOSUMDB='off', GOTOOLCHAIN='local')
 
 
@@ -38,34 +39,37 @@ def main():
     pkgdir = {'ivg': '.', 'decode': 'decode', 'encode': 'encode', 'render': 'render', 'generate': 'generate', 'mdicons': 'mdicons',
               'vec': 'raster/vec', 'raster': 'raster'}.get(base, base)
     meta = dict(id=name, property=pid, package_of_demo=pkgdir, readme=open(os.path.join(d, 'README.md')).read())
-    rc, out = sh('git status --short', '/repo')
-    if out.strip():
-        print('repo not clean:', out)
+    global WT
+    WT = '/tmp/eval/' + name
+    sh('git -C /repo worktree remove --force %s' % WT)
+    rc, out = sh('git -C /repo worktree add -q --detach %s HEAD' % WT)
+    if rc != 0:
+        print('cannot create worktree', out)
         sys.exit(2)
-    dst = os.path.join('/repo', pkgdir, 'zz_demo_test.go')
+    dst = os.path.join(WT, pkgdir, 'zz_demo_test.go')
     try:
         # unpatched: demo passes
         shutil.copy(demo, dst)
-        rc, out = sh('go test -vet=off -count=1 -run TestDemo ./%s/' % pkgdir, '/repo')
+        rc, out = sh('go test -vet=off -count=1 -run TestDemo ./%s/' % pkgdir, WT)
         meta['demo_passes_unpatched'] = rc == 0
         os.remove(dst)
-        rc, out = sh('git apply %s' % patch, '/repo')
+        rc, out = sh('git apply %s' % patch, WT)
         if rc != 0:
             print('patch does not apply', out)
             meta['applies'] = False
             return finish(meta, name, d)
         meta['applies'] = True
-        rc, out = sh('go build ./... && go test -vet=off -count=1 ./...', '/repo')
+        rc, out = sh('go build ./... && go test -vet=off -count=1 ./...', WT)
         meta['suite_passes_patched'] = rc == 0
         shutil.copy(demo, dst)
-        rc, out = sh('go test -vet=off -count=1 -run TestDemo ./%s/' % pkgdir, '/repo')
+        rc, out = sh('go test -vet=off -count=1 -run TestDemo ./%s/' % pkgdir, WT)
         meta['demo_fails_patched'] = rc != 0
         meta['demo_output'] = out[-1500:]
         os.remove(dst)
         meta['checks'] = {}
         for c in checks:
             t0 = time.time()
-            rc, out = sh('./check %s --tier %s --no-evidence' % (c, tier), '/verif', timeout=5400)
+            rc, out = sh('VERIF_REPO=%s ./check %s --tier %s --no-evidence' % (WT, c, tier), '/verif', timeout=5400)
             viol = [l for l in out.split('\n') if l.startswith('VIOLATION') or l.startswith('  harness')]
             meta['checks'][c] = dict(rc=rc, wall_s=round(time.time() - t0, 1), tier=tier, violations=viol[:6],
                                      summary=[l for l in out.split('\n') if l.startswith(c + ' tier=')][-1:],
@@ -73,7 +77,7 @@ def main():
     finally:
         if os.path.exists(dst):
             os.remove(dst)
-        sh('git checkout -- .', '/repo')
+        sh('git -C /repo worktree remove --force %s' % WT)
     finish(meta, name, d)
 
 
